@@ -201,6 +201,12 @@ func (fc *FnCtx) callFunc(st *State, e *ast.CallExpr, fn *types.Func, sig *types
 		return res
 	}
 	c := fc.prog.ContractFor(full, fc.contract.PkgPath)
+	// `opt foreign=ignore`: a callee in another package whose contract was written for other properties only is
+	// treated as an ordinary unknown call here (its effects come from the frame analysis of its body): neither its
+	// preconditions are demanded nor its postconditions assumed. Sound: an over-approximation of the call.
+	if c != nil && fc.contract.Opts["foreign"] == "ignore" && !c.Trusted && c.PkgPath != fc.contract.PkgPath && !propListed(c.Opts["props"], fc.eng.prop) {
+		c = nil
+	}
 	if c != nil {
 		return fc.contractCall(st, e, fn, sig, c, recv, hasRecv, args, ctext, ord)
 	}
